@@ -1,11 +1,48 @@
-"""C03 - no input makes a public entry point panic, overflow or hang."""
+"""C03 - no input makes a public entry point panic, overflow or hang.
+
+Every run REGENERATES coq/Gen/PanicSites.v from /repo/src (gen/gen_panics.py): the inventory of the potential
+panic sites of the parse path (panic!/unreachable!/assert*!/debug_assert*!, .unwrap(), .expect(..), index and
+slice expressions, std calls that panic on a bad argument, compound integer updates and subtractions), pinned by
+the obligation C03_panic_inventory and keyed to the table of Model/PanicMap.v (C03_panic_table_covers,
+C03_table_sites_exist, C03_model_sites_accounted).  A site that is added, removed or edited breaks the
+obligations (the build of Properties/C03.vo fails) and is reported with file, fn and text; moving code, comments
+and message wording do not."""
+import os
 import random
+import sys
 
 from vlib import common
 from vlib.common import hx
 from checks import parser_common as pc
 
+sys.path.insert(0, os.path.join(common.VERIF, "gen"))
+import gen_panics  # noqa: E402
+
 PID = "C03"
+
+
+def inventory():
+    """regenerate Gen/PanicSites.v; -> (stats, disagreements in the format of common.decide)"""
+    inv = gen_panics.regenerate()
+    expected = gen_panics.expected_sites()
+    new, gone = gen_panics.diff(inv["items"], expected)
+    st = {"sites": len(inv["items"]), "expected": None if expected is None else len(expected),
+          "file_rewritten": inv["changed"], "new": new, "gone": gone,
+          "by_kind": {k: sum(1 for it in inv["items"] if it["kind"] == k) for k in gen_panics.KINDS},
+          "model_sites": len(gen_panics.model_sites()),
+          "samples": ["src/%s.rs:%d fn %s: %s %s" % (it["file"], it["line"], it["fn"], it["kind"], it["text"])
+                      for it in inv["items"][:3]]}
+    dis = []
+    if expected is None or new or gone:
+        what = ("the panic-site inventory of %s differs from the list of C03_panic_inventory: new [%s]; gone [%s]"
+                % (os.path.join(common.REPO, "src"), "; ".join(new), "; ".join(gone))) if expected is not None else \
+            "Properties/C03.v has no theorem C03_panic_inventory"
+        dis.append(("panic-site inventory: +%d -%d" % (len(new), len(gone)),
+                    {"what": what, "new": new, "gone": gone, "impl": "-", "part": "inventory", "build": "-",
+                     "unchecked": "the models' panic sites (Model/PanicMap.v panic_table) <-> the panic sites of "
+                                  "src/lexer, src/parser, src/analysis, src/text.rs, src/span.rs, src/error.rs"}))
+        common.log("  " + what)
+    return st, dis
 
 
 def inputs_for(tier, rng):
@@ -28,6 +65,7 @@ def inputs_for(tier, rng):
 
 def run(rep, tier, seed):
     rng = random.Random(seed)
+    inv_stats, inv_dis = inventory()
     paths = pc.prepare(need_release=True)
     audit = common.audit_property_file(PID)
     inputs, n_ex = inputs_for(tier, rng)
@@ -50,7 +88,7 @@ def run(rep, tier, seed):
     for s, rp in dis + dis_r:
         if rp["impl"] == "panic":
             hits.append((s, "panic in %s (%s build)" % (rp["part"], rp["build"]), rp))
-    common.decide(rep, PID, "L-lex/L-ev + consumers", audit, hits, dis + dis_r, tier,
+    common.decide(rep, PID, "L-lex/L-ev + consumers", audit, hits, dis + dis_r + inv_dis, tier,
                   "correspondence Model/Lexer.v, Model/Parser.v <-> src/lexer, src/parser (debug and release)")
     common.proof_coverage(rep, PID, audit, tier,
                           "lexer, block splitter, block parser, step/quantity/metadata/section/text-block parsers "
@@ -67,19 +105,33 @@ def run(rep, tier, seed):
         "correspondence_cases": ncases + ncases_r, "correspondence_disagreements": len(dis) + len(dis_r),
         "both_sides_panic_cases": npan + npan_r, "monitor_cases": len(mon), "monitor_violations": len(hits),
         "exhaustive": False,
+        "panic_site_inventory": inv_stats,
     })
     rep.assumptions = ["wall-clock hangs are detected only by the shard timeout of the runner (1200 s)",
-                       "panics inside third-party crates are visible to the monitor only"]
+                       "panics inside third-party crates are visible to the monitor only",
+                       "the inventory of panic sites is a token-level scan (gen/gen_panics.py): macros, unwrap/expect, "
+                       "index expressions, a fixed list of panicking std calls, `+=`/`-=`/`*=` and binary `-`; other "
+                       "overflowing arithmetic (`+`, `*`, casts) and panics inside called library functions are not "
+                       "listed; the reasons in Model/PanicMap.v for sites the models leave out are read off the source "
+                       "by hand and not proved"]
 
 
 def setup():
+    gen_panics.regenerate()
     pc.prepare(need_release=True)
     common.build_harness(["pmon"])
+    common.build_coq(["Properties/C03.vo"])
 
 
 def replay(rp):
-    import os
     import subprocess
+    if "input_hex" not in rp.get("replay", {}):
+        # a broken obligation / a changed inventory without a failing input: rebuild the obligations
+        st, dis = inventory()
+        audit = common.audit_property_file(PID)
+        print("panic-site inventory: %d sites, new %s, gone %s" % (st["sites"], st["new"], st["gone"]))
+        print("obligations: %d/%d %s" % (audit["discharged"], audit["obligations"], "; ".join(audit["failed"])))
+        return 0 if audit["ok"] and not dis else 1
     bindir = common.build_harness(["pmon", "events"])
     r = rp["replay"]
     line = "%s %s %s\n" % (r["input_hex"], r.get("ext", 0), r.get("conv", "e"))
